@@ -668,4 +668,7 @@ SELFTEST = [
     ]},
     {"name": "benign-semi-rename-and-reorder", "kind": "benign", "file": _SA, "old": "        log_q = np.array([x.log_p for x in trees])\n        log_q = log_normalize(log_q)\n        self._curr_trees = trees\n        self._set_q_dist(log_q)\n        self._log_p = dict(zip(trees, log_q))", "new": "        table = log_normalize(np.array([t.log_p for t in trees]))\n        self._log_p = dict(zip(trees, table))\n        self._set_q_dist(table)\n        self._curr_trees = trees"},
     {"name": "benign-fully-adapted-loop-rewrite", "kind": "benign", "file": _FA, "old": "        log_q = np.array([x.log_p for x in trees])\n", "new": "        vals = []\n        for holder in trees:\n            vals.append(holder.log_p)\n        log_q = np.array(vals)\n"},
+    {"name": "A1-existing-arm-forgets-the-point", "kind": "break", "rule": "A1", "file": "phyclone/smc/kernels/bootstrap.py", "old": "        tree = self.parent_tree.copy()\n\n        tree.add_data_point_to_node(self.data_point, node)\n\n        return tree", "new": "        tree = self.parent_tree.copy()\n\n        return tree"},
+    {"name": "H1-roots-are-all-clones", "kind": "break", "rule": "H1", "file": "phyclone/smc/swarm/tree_holder.py", "old": "        self.tree_roots = np.asarray(tree.roots)", "new": "        self.tree_roots = np.asarray(tree.nodes)"},
+    {"name": "H1-children-count-of-wrong-node", "kind": "break", "rule": "H1", "file": "phyclone/smc/swarm/tree_holder.py", "old": "self.num_children_on_node_that_matters = tree.get_number_of_children(self.node_last_added_to)", "new": "self.num_children_on_node_that_matters = tree.get_number_of_children(tree.root_node_name)"},
 ]
